@@ -238,11 +238,21 @@ def _ops(rec, case):
         else:   # boundary of a support-restricted function: evaluated on the restricted face
             if desc['sdim'] == 1: return
             F0 = f.copy()
-            new = tuple((kv.kv[0] + 0.25 * (kv.kv[-1] - kv.kv[0]), kv.kv[-1] - 0.125 * (kv.kv[-1] - kv.kv[0])) for kv in kvs)
+            # every end of every interval is either kept or moved inwards (at least one is moved): strips, half patches, interior boxes
+            mv = rng.random((len(kvs), 2)) < 0.5
+            if not mv.any(): mv[int(rng.integers(0, len(kvs))), int(rng.integers(0, 2))] = True
+            new = tuple((float(kv.kv[0] + (0.25 * (kv.kv[-1] - kv.kv[0]) if mv[k_, 0] else 0.0)), float(kv.kv[-1] - (0.125 * (kv.kv[-1] - kv.kv[0]) if mv[k_, 1] else 0.0)))
+                        for k_, kv in enumerate(kvs))
             F0.support = new
             ax = int(rng.integers(0, desc['sdim'])); side = int(rng.integers(0, 2))
+            sig = dict(sig, normal_end_moved=bool(mv[ax, side]), tangential_moved=bool(np.delete(mv, ax, axis=0).any()))
             ok, F = guarded(rec, c, sig, F0.boundary, (ax, side))
             if ok:
+                # the boundary lives on the face of the restricted support: its own support is the restricted box without the normal axis
+                want_supp = tuple(iv for k_, iv in enumerate(new) if k_ != ax)
+                got_supp = tuple(tuple(float(t) for t in iv) for iv in F.support)
+                rec.count('oracle:boundary_support')
+                if got_supp != want_supp: rec.violation(dict(sig, oracle='support of the boundary = restricted support without the normal axis'), c, {'got': got_supp, 'want': want_supp, 'face': [ax, side]})
                 grids2 = [np.linspace(lo, hi, 3) for (lo, hi) in new]
                 fixed = new[ax][side]; g2 = list(grids2); g2[ax] = np.array([fixed])
                 v2, _, _ = _ref_all(kvs, data, isn, (d,), g2)
